@@ -55,13 +55,13 @@ func (dm *defaultMkdirerPipeline) worker(ctx context.Context, wg *sync.WaitGroup
 			verifPoint("sink.recv.post", vid, verifName(root))
 			if dm.isExistRoot([]*Node{root}) {
 				verifPoint("sink.errsend.pre", vid, verifName(root))
-				errc <- ErrExistPath
+				sendErr(ctx, errc, ErrExistPath)
 				verifPoint("sink.errsend.post", vid, verifName(root))
 				return
 			}
 			if err := dm.makeDirectoriesAndFiles(root); err != nil {
 				verifPoint("sink.errsend.pre", vid, verifName(root))
-				errc <- err
+				sendErr(ctx, errc, err)
 				verifPoint("sink.errsend.post", vid, verifName(root))
 				return
 			}
